@@ -10,7 +10,21 @@ import (
 
 func verifNewPipe() (io.ReadCloser, io.WriteCloser) {
 	r, w := io.Pipe()
-	return r, w
+	return r, &verifSerialProbe{WriteCloser: w}
+}
+
+// verifSerialProbe is the native oracle for "writes to one stream are serialised": io.Writer does not promise that
+// concurrent Write calls are atomic (io.Pipe happens to), so two Write calls that no synchronisation orders are a
+// defect. The probe touches a plain field on every Write: under the race detector (how the engine's report is
+// confirmed) two unordered writers are reported as a data race on it, serialised writers are not.
+type verifSerialProbe struct {
+	io.WriteCloser
+	writes int
+}
+
+func (p *verifSerialProbe) Write(b []byte) (int, error) {
+	p.writes++
+	return p.WriteCloser.Write(b)
 }
 
 // verifPipeGarbage makes the stream turn to garbage at this point (the reader's decoder fails from here on).
